@@ -159,6 +159,13 @@ def check_rewrites(rep: Report, prog: Program) -> None:
                 and isinstance(n.value, ast.Call) and callee_last(n.value) == 'max' \
                 and n.targets[0].id in names_in(n.value):
             maxvars.add(n.targets[0].id)
+        # the same running maximum spelt  `if n > V: V = n`  /  `if V < n: V = n`
+        if isinstance(n, ast.If) and not n.orelse and len(n.body) == 1 and isinstance(n.body[0], ast.Assign) and len(n.body[0].targets) == 1 \
+                and isinstance(n.body[0].targets[0], ast.Name) and isinstance(n.test, ast.Compare) and len(n.test.ops) == 1:
+            V, val = n.body[0].targets[0].id, norm(n.body[0].value)
+            l_, op_, r_ = norm(n.test.left), n.test.ops[0], norm(n.test.comparators[0])
+            if (isinstance(op_, (ast.Gt, ast.GtE)) and l_ == val and r_ == V) or (isinstance(op_, (ast.Lt, ast.LtE)) and l_ == V and r_ == val):
+                maxvars.add(V)
     for st in stores:
         v = st.value
         construct = norm(st)
@@ -175,7 +182,12 @@ def check_rewrites(rep: Report, prog: Program) -> None:
         mv = next(iter(maxvars))
         reached_for = []
         # start after the last assignment to the counter: the statement dominating the store = first test guarding it
-        tests = [n for n, nd in cfg.nodes.items() if nd.kind == 'test' and mv in names_in(nd.expr)]
+        # guards evaluated on the final value of the counter: tests from which no further assignment to it can be reached
+        # (the running-maximum update itself may be spelt as a test: `if n > V: V = n`)
+        mv_assigns = [n for n, nd in cfg.nodes.items() if nd.kind == 'stmt' and isinstance(nd.stmt, (ast.Assign, ast.AugAssign))
+                      and mv in {norm(t) for t in ([nd.stmt.target] if isinstance(nd.stmt, ast.AugAssign) else nd.stmt.targets)}]
+        tests = [n for n, nd in cfg.nodes.items() if nd.kind == 'test' and mv in names_in(nd.expr)
+                 and not any(cfg.reaches(n, a, stop=lambda z, hs=set(nd.loops): z in hs) for a in mv_assigns)]       # within the same iteration of the enclosing loops
         if not tests:
             rep.error(f"{rule}: no guard on `{mv}` before {construct}")
             return
@@ -205,7 +217,10 @@ def check_rewrites(rep: Report, prog: Program) -> None:
             rep.ob(rule, f.fq(), norm(st) + ' [requested method]', f.loc(st), False, "rewrite to 'linear' is not conditional on the requested method")
             continue
         mv = next(iter(maxvars))
-        tests = [n for n, nd in cfg.nodes.items() if nd.kind == 'test' and mv in names_in(nd.expr)]
+        mv_assigns = [n for n, nd in cfg.nodes.items() if nd.kind == 'stmt' and isinstance(nd.stmt, (ast.Assign, ast.AugAssign))
+                      and mv in {norm(t) for t in ([nd.stmt.target] if isinstance(nd.stmt, ast.AugAssign) else nd.stmt.targets)}]
+        tests = [n for n, nd in cfg.nodes.items() if nd.kind == 'test' and mv in names_in(nd.expr)
+                 and not any(cfg.reaches(n, a, stop=lambda z, hs=set(nd.loops): z in hs) for a in mv_assigns)]
         first = min(tests, key=lambda n: cfg.nodes[n].lineno)
         hit = []
         for opt in ('fixed-point', 'newton', 'linear'):
@@ -239,6 +254,8 @@ def check_linear(rep: Report, prog: Program) -> None:
         rep.error(f"{rule}: expected exactly one len(<edges>) term guarding the cases of `linear`, found {sorted(terms)}")
         return
     term, var = next(iter(terms.items()))
+    # the empty case may be tested by truthiness (`if not edges`): every test that mentions the list belongs to the case analysis
+    tests = [n for n, nd in cfg.nodes.items() if nd.kind == 'test' and var in names_in(nd.expr)]
     # role of the variable: rhs edges whose label is not an input
     role_ok, role_detail = edges_not_in_inputs(f, var)
     rep.ob(rule, f.fq(), f"{var} = rhs edges whose label is not in the inputs", f.loc(), role_ok, role_detail)
